@@ -51,6 +51,8 @@ TOY = dict(MaxChunk=6, PadMax=2, Tag=1, SaltLen=1, FixLen=1, EihLen=1, Depth=1, 
 def run_tlc(consts, **kw):
     kw.setdefault("workers", 16)
     kw.setdefault("timeout", 1500)
+    consts = dict(consts)
+    consts.setdefault("IdleSecs", "{}")
     return vlib.tlc(SPEC, "MCSS2022Stream", "MCSS2022Stream.cfg", consts, **kw)
 
 
@@ -96,12 +98,16 @@ def graph_config(k, cfg, kind, big):
         c.update(Two="TRUE", AddrLens="{19}", Pads="{1}", PSizes="{0}", WSizes=tla_set([1, mc + 1] + ([mc] if big else [])),
                  RSizes=tla_set([1, mc + tag]), DSizes="{}", Paths='{"plain","t2t"}', Writers='{"Ac"}' if up else '{"Bs"}',
                  MaxW=5 + (1 if big else 0), MaxR=3 if not big else 4)
+    elif kind == "idle":
+        # silence of more than the timestamp tolerance at every quiet moment of a two-way conversation
+        c.update(Pads="{1}", PSizes="{0}", WSizes=tla_set([1, mc + 1]), RSizes=tla_set([mc + tag]), DSizes="{}", Paths='{"plain"}',
+                 Writers='{"Ac","As"}', MaxW=3, MaxR=3, IdleSecs="{45, 600}" if big else "{45}")
     else:
         raise vlib.Broken("unknown graph kind " + kind)
     return c
 
 
-KINDS = ["handshake", "chunk-c2s", "chunk-s2c", "buf-c2s", "buf-s2c", "relay-up", "relay-down"]
+KINDS = ["handshake", "chunk-c2s", "chunk-s2c", "buf-c2s", "buf-s2c", "relay-up", "relay-down", "idle"]
 
 CONFIGS = [
     dict(KeyLen=32, Depth=0, ReqPfx=0, RspPfx=0, AllowSeg=False),
@@ -184,6 +190,8 @@ def run(tier, seed, replay_file):
 
     def design(name, consts, cfgfile="MCSS2022Stream.cfg"):
         """Exhaustive check of the design on toy constants: every size around the chunk limit."""
+        consts = dict(consts)
+        consts.setdefault("IdleSecs", "{}")
         r = vlib.tlc(SPEC, "MCSS2022Stream", cfgfile, consts, workers=per, timeout=2400, edges=False, heap="6g")
         account(name, r)
         if r.violation:
@@ -198,7 +206,11 @@ def run(tier, seed, replay_file):
         if g.violation:
             raise vlib.Broken("the design violates %s in graph configuration %s" % (g.violation, name))
         gr = vlib.Graph(g)
-        paths, left = gr.cover(seed=seed, max_len=30, max_paths=max_paths)
+        if kind == "idle":
+            # Idle changes nothing in the model (a self-loop): what it does to the implementation shows in what follows
+            paths, left = gr.cover(seed=seed, max_len=30, max_paths=max_paths, prefer=lambda e: e[1]["n"] == "Idle", tail=8)
+        else:
+            paths, left = gr.cover(seed=seed, max_len=30, max_paths=max_paths)
         n, steps, distinct = replay(v, binary, k, cfg, [gr.behaviour(p) for p in paths], seed, "graph replay " + name)
         account(name, g, {"edges": len(gr.edges), "paths_replayed": n, "uncovered_edges": left, "config": cfg_name(cfg)})
         with LOCK:
